@@ -619,6 +619,7 @@ def _r5_r6_sta(ck: Checker, prog: Program):
     amp = sp.Symbol("A", positive=True)
     fn = lambda e: getattr(getattr(e, "func", None), "__name__", "")   # noqa: E731
     conds_all = []
+    guards = []
     inner = None
     for r in rej:
         rconds, rnodes = r["conds"], r["cond_nodes"]
@@ -629,7 +630,8 @@ def _r5_r6_sta(ck: Checker, prog: Program):
         parts = []
         for (c_, t_), node in list(zip(rconds, rnodes))[tag_at[-1] + 1:]:
             if isinstance(node, ast.If) and any(isinstance(x, ast.Raise) for x in ast.walk(node)):
-                continue        # refusal of a window shorter than the averaging length
+                guards.append((c_, t_, node))        # refusal of a window shorter than the averaging length
+                continue
             parts.append(c_ if t_ else sp.Not(c_))
         conds_all.append(sp.And(*parts) if len(parts) != 1 else parts[0])
     if len(set(map(str, conds_all))) != 1:
@@ -644,7 +646,9 @@ def _r5_r6_sta(ck: Checker, prog: Program):
     def named(e):
         from ..pathtable import rewrite
         table = {"attr_amplitude": amp, "attr_dt_in_seconds": DT, "attr_n_samples": NS}
-        e = rewrite(e, lambda x: fn(x) in table, lambda x: table[fn(x)])
+        # only the quantities of the series under examination get these names: a length or time step taken from another
+        # window stays what it is (and the tiling / guard rules below then do not match)
+        e = rewrite(e, lambda x: fn(x) in table and x.args and x.args[0] in owners, lambda x: table[fn(x)])
         ren = {sp.Symbol(k, real=True): v for k, v in pos.items()}
         return rewrite(e, lambda x: x in ren, lambda x: ren[x])
     cond = named(cond)
@@ -690,6 +694,23 @@ def _r5_r6_sta(ck: Checker, prog: Program):
     for nm, v in (("sta_values", sta), ("lta", lta)):
         if not (v.is_Function and v.func.__name__ == "mean" and v.args and v.args[0].has(sp.Abs)):
             ck.violation("C13.R5", fq, nm, f"`{nm}` is not a mean of absolute amplitudes: {v}", loc=f.loc(inner))
+    # length guards: a window is refused exactly when an averaging length exceeds it (equal lengths are fine)
+    gbad = []
+    npts_forms = [sp.Function("int")(sp.floor(pos[nm_] / DT)) for nm_ in ("sta_seconds", "lta_seconds")] + [sp.floor(pos[nm_] / DT) for nm_ in ("sta_seconds", "lta_seconds")]
+    seen_guard = set()
+    for c_, t_, node in guards:
+        g_ = _canon_rel(named(c_))
+        if t_:
+            continue            # the raising side itself is not part of a completed pass
+        if isinstance(g_, sp.Gt) and g_.rhs == NS and any(equal(g_.lhs, n_) for n_ in npts_forms):
+            seen_guard.add(str(g_.lhs))
+        else:
+            gbad.append(str(g_))
+    if gbad:
+        ck.violation("C13.R6", fq, "length guards", f"a window is refused under `{gbad[0]}`: the refusal must be exactly `averaging length > window length` "
+                     f"(an averaging length equal to the window is allowed) and compare with the examined window's own length", loc=f.loc(decide))
+    elif seen_guard:
+        ck.ok("C13.R6", fq, "windows shorter than the STA / LTA length are refused (strictly shorter only)", nontrivial=False)
     # the LTA is the mean absolute amplitude of the first npts_in_lta = floor(lta_seconds / dt) samples of the window
     if lta is not None:
         gi_, sl_, NONE_ = sp.Function("getitem"), sp.Function("slice"), sp.Symbol("None")
